@@ -7,7 +7,10 @@ CASE_TYPE = 'C08_case'
 VERDICT = 'C08_verdict'
 PROPS_FILE = 'theories/Props/C08.v'
 THEOREM = 'C08_wake_exactly_on_time'
-RULE = ('1-5 coroutines given as scripts (per resumption: optional in-body start/kill/state '
+RULE = ('30 % of the cases: 6-10 coroutines started together whose first waits are pushed in '
+        'non-sorted order (ascending runs, small after big, duplicates), 8-30 small frames, '
+        're-yields after waking (wait heap with interleaved pushes and pops); the others: '
+        '1-5 coroutines given as scripts (per resumption: optional in-body start/kill/state '
         'actions, then yield of None/0/-1/a positive dyadic wait from 1/8 to 4, or return), '
         'started at frames 0-3, 5-20 process calls with dt from {0, 1/8, 1/2, 1, 2, 3} '
         '(half of the cases use the small alphabet dt {0, 1/2, 1} x waits {1/2, 1, 2} so that '
@@ -43,7 +46,9 @@ def gen(rng, tier):
     n = {'quick': 420, 'thorough': 4200, 'search': 300}[tier]
     out = []
     for _ in range(n):
-        if rng.random() < 0.25:
+        if rng.random() < 0.3:
+            out.append(cc.gen_many(rng))
+        elif rng.random() < 0.25:
             out.append(cc.gen_case(rng, kills=0.35, nested=0.2))
         else:
             out.append(cc.gen_case(rng, kills=0.0, nested=0.0))
